@@ -3,6 +3,7 @@ from __future__ import annotations
 
 import itertools
 import math
+import time
 from fractions import Fraction
 
 import numpy as np
@@ -940,7 +941,18 @@ def assembler_dtypes(R: Run, BlockAssembler):
                  sig=f"asm-dtype|{np.dtype(a).kind}{np.dtype(b).kind}")
 
 
-class _LazyBlocks:
+from collections.abc import Mapping as _Mapping
+
+
+def _wait_parked(thread, event, limit=10.0):
+    """wait until `event` is set or the thread is gone (it may have failed before reaching the parking spot)"""
+    t0 = time.time()
+    while thread.is_alive() and not event.is_set() and time.time() - t0 < limit:
+        event.wait(0.01)
+    return event.is_set()
+
+
+class _LazyBlocks(_Mapping):
     """a Mapping that produces a block when asked; one chosen access can fail once or wait for an event"""
 
     def __init__(self, blocks):
@@ -993,9 +1005,7 @@ def assembler_lazy_and_threads(R: Run, BlockAssembler):
     the retried extract must be the mosaic window.  (2) a second thread extracts while the first one is parked at every
     possible block access of its first extract: both must get the mosaic window."""
     import threading
-    from collections.abc import Mapping
 
-    Mapping.register(_LazyBlocks)
     rng = R.rng
     for it in range(R.pick(12, 80)):
         ty, tx = rng.randint(1, 3), rng.randint(2, 3)
@@ -1049,7 +1059,7 @@ def assembler_lazy_and_threads(R: Run, BlockAssembler):
 
             t1 = threading.Thread(target=worker, args=("t1", wins[0]))
             t1.start()
-            lazy.waiting.wait(timeout=10)
+            _wait_parked(t1, lazy.waiting)
             t2 = threading.Thread(target=worker, args=("t2", wins[1]))
             t2.start()
             t2.join(timeout=10)
@@ -1061,6 +1071,265 @@ def assembler_lazy_and_threads(R: Run, BlockAssembler):
                 R.oracle(ok, "concurrent-extract-ne-mosaic", dict(case, parked_at_access=n, thread=name, win=str(win)),
                          f"thread {name} got {got if isinstance(got, str) else got.tolist()} instead of the mosaic window",
                          sig="asm-threads")
+
+
+
+# ------------------------------------------------------------------ forced interleavings inside block slicing
+class _Ctrl:
+    """schedule controller: the chosen thread is parked at its n-th block slicing until released"""
+
+    def __init__(self):
+        import threading
+
+        self.thread_name, self.park_at, self.n = None, None, 0
+        self.parked, self.release = threading.Event(), threading.Event()
+
+
+class _YieldingBlock(np.ndarray):
+    """an ndarray whose slicing (`block[s_roi]` in extract) can hand control to other threads: what a lazy /
+    memory-mapped / remote block does.  Index computation of extract has happened, the paste has not."""
+
+    ctrl = None
+
+    def __getitem__(self, item):
+        import threading
+
+        c = _YieldingBlock.ctrl
+        if c is not None and threading.current_thread().name == c.thread_name:
+            c.n += 1
+            if c.n == c.park_at:
+                c.parked.set()
+                c.release.wait(timeout=10)
+        return np.asarray(super().__getitem__(item))
+
+
+def assembler_interleaved(R: Run, BlockAssembler):
+    """N threads extract different windows from ONE assembler; thread A is parked inside the slicing of its n-th block
+    (after its paste index was computed, before the paste) while threads B, C run their whole extract, for every n.
+    Every result has to equal the window of the sequentially built mosaic."""
+    import threading
+
+    rng = R.rng
+    for it in range(R.pick(25, 200)):
+        ty, tx = rng.randint(1, 3), rng.randint(2, 4)
+        chy = [rng.randint(1, 3) for _ in range(ty)]
+        chx = [rng.randint(1, 4) for _ in range(tx)]
+        NY, NX = sum(chy), sum(chx)
+        lead = rng.choice([[], [2], []])
+        trail = rng.choice([[], [2], []])
+        a = len(lead)
+        keys = [(iy, ix) for iy in range(ty) for ix in range(tx) if rng.random() < 0.8] or [(0, 0)]
+        plain = {k: (cell_vals(100, k, lead, chy[k[0]], chx[k[1]], trail) + 1).astype("int16") for k in keys}
+        blocks = {k: v.view(_YieldingBlock) for k, v in plain.items()}
+        oy = np.concatenate([[0], np.cumsum(chy)]).astype(int)
+        ox = np.concatenate([[0], np.cumsum(chx)]).astype(int)
+        FILL = -7
+        mosaic = np.full((*lead, NY, NX, *trail), FILL, dtype="int16")
+        for k, b in plain.items():
+            mosaic[(*[slice(None)] * a, slice(oy[k[0]], oy[k[0] + 1]), slice(ox[k[1]], ox[k[1] + 1]))] = b
+        case = {"chy": chy, "chx": chx, "keys": keys, "lead": lead, "trail": trail}
+
+        def rwin():
+            y0, x0 = rng.randint(0, NY - 1), rng.randint(0, NX - 1)
+            return (slice(y0, rng.randint(y0 + 1, NY)), slice(x0, rng.randint(x0 + 1, NX)))
+
+        wins = {"A": (slice(0, NY), slice(0, NX)) if rng.random() < 0.5 else rwin(), "B": rwin(), "C": rwin()}
+
+        def want(win):
+            return mosaic[(*[slice(None)] * a, *win)]
+
+        try:
+            asm = BlockAssembler(blocks, (tuple(chy), tuple(chx)), axis=a)
+        except Exception as e:  # pylint: disable=broad-except
+            R.oracle(False, "assembler-raises", case, repr(e))
+            continue
+        for n in range(1, len(keys) + 1):
+            ctrl = _Ctrl()
+            ctrl.thread_name, ctrl.park_at = f"A-{it}-{n}", n
+            _YieldingBlock.ctrl = ctrl
+            out = {}
+
+            def worker(name):
+                out[name] = guarded(lambda: asm.extract(FILL, roi=wins[name]))
+
+            tA = threading.Thread(target=worker, args=("A",), name=ctrl.thread_name)
+            tA.start()
+            _wait_parked(tA, ctrl.parked)
+            for other in ("B", "C"):
+                t_ = threading.Thread(target=worker, args=(other,), name=f"{other}-{it}-{n}")
+                t_.start()
+                t_.join(timeout=10)
+            ctrl.release.set()
+            tA.join(timeout=10)
+            _YieldingBlock.ctrl = None
+            for name, win in wins.items():
+                got = out.get(name, "ERR:no-result")
+                ok = isinstance(got, np.ndarray) and got.shape == want(win).shape and bool(np.array_equal(got, want(win)))
+                R.oracle(ok, "concurrent-extract-ne-mosaic",
+                         dict(case, parked="A inside the slicing of its block no. %d" % n, thread=name, wins={k: str(v) for k, v in wins.items()}),
+                         f"thread {name} got {got if isinstance(got, str) else got.tolist()} instead of {want(win).tolist()}",
+                         sig="asm-interleaved")
+
+
+# ------------------------------------------------------------------ one instance, a sequence of calls  vs  a fresh instance per call
+def canon(o):
+    """canonical, comparable text of any result of the tiling / assembling API"""
+    if isinstance(o, str):
+        return o
+    if isinstance(o, np.ndarray):
+        return f"array({o.dtype},{o.shape},{o.tolist()})"
+    if isinstance(o, slice):
+        return f"{o.start}:{o.stop}:{o.step}"
+    if isinstance(o, range):
+        return f"range({o.start},{o.stop})"
+    if isinstance(o, dict):
+        return "{" + ",".join(f"{canon(k)}={canon(v)}" for k, v in o.items()) + "}"
+    if isinstance(o, (list, tuple)):
+        return ("[" if isinstance(o, list) else "(") + ",".join(canon(v) for v in o) + ("]" if isinstance(o, list) else ")")
+    if isinstance(o, (int, np.integer)):
+        return str(int(o))
+    if isinstance(o, (float, np.floating)):
+        return frac_s(float(o)) if math.isfinite(o) else repr(float(o))
+    cls = type(o).__name__
+    if cls == "GeoboxTiles":
+        return f"GeoboxTiles({canon(o.base)};{canon(o.roi)})"
+    if cls == "GeoBox":
+        return f"GeoBox({tuple(o.shape)};{aff_s(o.affine)};{o.crs})"
+    if cls in ("Tiles", "VariableSizedTiles"):
+        return f"{cls}(base={tuple(o.base.yx)},shape={tuple(o.shape.yx)},chunks={guarded(lambda: canon(o.chunks))})"
+    if cls in ("Shape2d", "Index2d", "XY"):
+        return f"{cls}{tuple(o.yx)}"
+    if cls == "BoundingBox":
+        return f"BBox({tuple(o.bbox)},{o.crs})"
+    if hasattr(o, "__iter__"):
+        return canon(list(o))
+    return repr(o)
+
+
+def respell(rng, arg):
+    """the previous argument again: permuted, with duplicates, as a subset / superset, in another container type"""
+    if isinstance(arg, (list, tuple)) and arg and isinstance(arg[0], (list, tuple)) and len(arg[0]) == 2:
+        sel = [tuple(int(v) for v in p) for p in arg]
+        how = rng.choice(["permute", "duplicate", "subset", "reverse", "tuple", "lists", "array", "same"])
+        if how == "permute":
+            sel = rng.sample(sel, len(sel))
+        elif how == "duplicate":
+            sel = sel + [rng.choice(sel)]
+            rng.shuffle(sel)
+        elif how == "subset" and len(sel) > 1:
+            sel = rng.sample(sel, rng.randint(1, len(sel) - 1))
+        elif how == "reverse":
+            sel = sel[::-1]
+        elif how == "tuple":
+            return tuple(sel)
+        elif how == "lists":
+            return [list(p) for p in sel]
+        elif how == "array":
+            return np.asarray(sel)
+        return sel
+    return arg
+
+
+def sequence_vs_fresh(R: Run, make, calls, case, tag):
+    """Run `calls` (name, fn(obj)) one after the other on ONE instance, then each call alone on a fresh instance:
+    the answers have to be the same (no state may leak from earlier calls)."""
+    try:
+        obj = make()
+    except Exception as e:  # pylint: disable=broad-except
+        R.oracle(False, "instance-raises", case, repr(e))
+        return
+    seq = [guarded(lambda: canon(fn(obj))) for _name, fn in calls]
+    for i, (name, fn) in enumerate(calls):
+        alone = guarded(lambda: canon(fn(make())))
+        R.oracle(seq[i] == alone, "same-instance-call-differs-from-fresh-instance",
+                 dict(case, call=name, position=i, earlier=[c[0] for c in calls[:i]][-6:]),
+                 f"call #{i} {name}: on the instance that served the earlier calls -> {seq[i][:300]}; on a fresh instance -> {alone[:300]}",
+                 sig=f"seq|{tag}|{name.split('(')[0]}", trivial=i == 0)
+
+
+def stateful_sequences(R: Run, Rm, GeoBox, GeoboxTiles, BlockAssembler):
+    from affine import Affine
+
+    rng = R.rng
+    for it in range(R.pick(120, 1200)):
+        kind, sy, sx, _t = rnd_tiling2(R, Rm)
+        chy, chx = chunks_of(kind, sy), chunks_of(kind, sx)
+        Ty, Tx, NY, NX = len(chy), len(chx), sum(chy), sum(chx)
+        if Ty == 0 or Tx == 0 or NY == 0 or NX == 0:
+            continue
+        A = Affine(rng.choice([1, 2, 0.5]), 0, rng.randint(-40, 40) / 4, 0, -rng.choice([1, 2, 0.5]), rng.randint(-40, 40) / 4)
+        tshape = (sy[1], sx[1]) if kind == "r" else (tuple(sy), tuple(sx))
+
+        def mk_t():
+            return Rm.Tiles((NY, NX), tshape) if kind == "r" else Rm.VariableSizedTiles(tshape)
+
+        def mk_g():
+            return GeoboxTiles(GeoBox((NY, NX), A, "EPSG:3857"), tshape)
+
+        def rsel():
+            return [(rng.randint(0, Ty - 1), rng.randint(0, Tx - 1)) for _ in range(rng.randint(1, 4))]
+
+        def rroi():
+            a_, c_ = rng.randint(0, Ty - 1), rng.randint(0, Tx - 1)
+            return (slice(a_, rng.randint(a_ + 1, Ty)), slice(c_, rng.randint(c_ + 1, Tx)))
+
+        case = {"spec": [kind, list(sy), list(sx)], "A": aff_s(A)}
+        # --- GeoboxTiles and the RoiTiles object behind it
+        calls_g, calls_t = [], []
+        sel = rsel()
+        for _k in range(rng.randint(6, 12)):
+            r = rng.random()
+            if r < 0.45:
+                sel = respell(rng, sel) if rng.random() < 0.7 else rsel()
+                s_ = sel
+                calls_g.append((f"clip({canon(s_)})", lambda g, s_=s_: g.clip(s_)))
+                calls_t.append((f"clip_tiles({canon(s_)})", lambda t, s_=s_: Rm.clip_tiles(t, s_)))
+            elif r < 0.6:
+                roi = rroi()
+                calls_g.append((f"crop[{canon(roi)}]", lambda g, roi=roi: g.crop[roi]))
+                calls_t.append((f"crop({canon(roi)})", lambda t, roi=roi: t.crop(roi)))
+            elif r < 0.75:
+                idx = (rng.randint(-Ty, Ty - 1), rng.randint(-Tx, Tx - 1))
+                calls_g.append((f"[{idx}]", lambda g, idx=idx: g[idx]))
+                calls_g.append((f"roi[{idx}]", lambda g, idx=idx: g.roi[idx]))
+                calls_g.append((f"chunk_shape({idx})", lambda g, idx=idx: g.chunk_shape(idx)))
+                calls_t.append((f"[{idx}]", lambda t, idx=idx: t[idx]))
+                calls_t.append((f"tile_shape({idx})", lambda t, idx=idx: t.tile_shape(idx)))
+            elif r < 0.85:
+                calls_g.append(("chunks", lambda g: g.chunks))
+                calls_t.append(("chunks", lambda t: t.chunks))
+            else:
+                pix = (rng.randint(0, NY - 1), rng.randint(0, NX - 1))
+                calls_t.append((f"locate({pix})", lambda t, pix=pix: t.locate(pix)))
+                calls_g.append((f"pix_bbox", lambda g: g.pix_bbox((0, 0))))
+        sequence_vs_fresh(R, mk_g, calls_g, case, "GeoboxTiles")
+        sequence_vs_fresh(R, mk_t, calls_t, case, "Tiles" if kind == "r" else "VariableSizedTiles")
+        # --- BlockAssembler
+        if it % 3 == 0:
+            lead = rng.choice([[], [2]])
+            a = len(lead)
+            keys = [(iy, ix) for iy in range(Ty) for ix in range(Tx) if rng.random() < 0.6] or [(0, 0)]
+            blocks = {k: (cell_vals(100, k, lead, chy[k[0]], chx[k[1]], []) + 1).astype(rng.choice(["int16", "float32"])) for k in keys}
+
+            def mk_a():
+                return BlockAssembler({k: v.copy() for k, v in blocks.items()}, (tuple(chy), tuple(chx)), axis=a)
+
+            calls_a = []
+            for _k in range(rng.randint(4, 8)):
+                y0, x0 = rng.randint(0, NY - 1), rng.randint(0, NX - 1)
+                win = (slice(y0, rng.randint(y0 + 1, NY)), slice(x0, rng.randint(x0 + 1, NX)))
+                fill = rng.choice([None, -1, 5])
+                if rng.random() < 0.3 and keys:      # a window that is exactly one block
+                    k0 = rng.choice(keys)
+                    oy, ox = [0] + list(np.cumsum(chy)), [0] + list(np.cumsum(chx))
+                    if chy[k0[0]] and chx[k0[1]]:
+                        win = (slice(int(oy[k0[0]]), int(oy[k0[0] + 1])), slice(int(ox[k0[1]]), int(ox[k0[1] + 1])))
+                calls_a.append((f"extract({fill},{canon(win)})", lambda o, win=win, fill=fill: o.extract(fill, roi=win)))
+                if rng.random() < 0.3:
+                    calls_a.append((f"[{canon(win)}]", lambda o, win=win: o[win]))
+            calls_a.append(("planes_yx", lambda o: list(o.planes_yx())))
+            calls_a.append(("shape,dtype", lambda o: (o.shape, str(o.dtype))))
+            sequence_vs_fresh(R, mk_a, calls_a, dict(case, keys=keys, lead=lead), "BlockAssembler")
 
 
 # ------------------------------------------------------------------ entry points
@@ -1194,6 +1463,8 @@ def run(R: Run):
     assembler_held(R, BlockAssembler)
     assembler_dtypes(R, BlockAssembler)
     assembler_lazy_and_threads(R, BlockAssembler)
+    assembler_interleaved(R, BlockAssembler)
+    stateful_sequences(R, Rm, GeoBox, GeoboxTiles, BlockAssembler)
     index_types_stream(R, Rm, GeoBox, GeoboxTiles)
     huge_stream(R, Rm)
     int32_edge_stream(R, Rm)
